@@ -346,7 +346,15 @@ impl verif::Hooks for H {
             }
             None => json!([]),
         };
-        w.ev(json!({"e":"start","id":b.id+1,"cmd":cmd,"rsp":rsp,"pool":b.pool.unwrap_or_default()}));
+        // n2 has made the directories of the step's outputs by now (work.rs: create_parent_dirs
+        // precedes Runner::start); later a concurrent command may remove them again
+        let eff = w.effs.get(b.id).cloned().unwrap_or_default();
+        let dirs_ok = eff.outs.iter().all(|o| match Path::new(o).parent() {
+            Some(p) if !p.as_os_str().is_empty() => p.is_dir(),
+            _ => true,
+        });
+        w.ev(json!({"e":"start","id":b.id+1,"cmd":cmd,"rsp":rsp,"pool":b.pool.unwrap_or_default(),
+            "dirsok":dirs_ok}));
     }
 
     fn runner_wait(&mut self, running: usize) {
@@ -913,8 +921,27 @@ impl Engine {
             }
         }
         let (errk, errarg, cyc) = classify_error(&err);
+        // where build logs are now (n2 runs in the scenario's directory): every file named
+        // .n2_db at most three levels down
+        let mut dbat: Vec<String> = Vec::new();
+        fn walk(dir: &Path, rel: &str, depth: usize, out: &mut Vec<String>) {
+            if let Ok(rd) = std::fs::read_dir(dir) {
+                for e in rd.flatten() {
+                    let name = e.file_name().to_string_lossy().into_owned();
+                    let r = if rel.is_empty() { name.clone() } else { format!("{}/{}", rel, name) };
+                    let p = e.path();
+                    if name == ".n2_db" {
+                        out.push(r);
+                    } else if depth > 0 && p.is_dir() {
+                        walk(&p, &r, depth - 1, out);
+                    }
+                }
+            }
+        }
+        walk(Path::new("."), "", 3, &mut dbat);
+        dbat.sort();
         w.ev(json!({"e":"end","exit":exit,"err":err,"errk":errk,"errarg":errarg,"cyc":cyc,
-            "panic":panic,"dead":dead,"summary":summary,"n":n,"warns":warns}));
+            "panic":panic,"dead":dead,"summary":summary,"n":n,"warns":warns,"dbat":dbat}));
     }
 
     /// Runs a scenario under every completion order (bounded), calling `sink` per run.
